@@ -252,8 +252,8 @@
 (define-fun arg_ok ((p function.Parameter) (v cty.Value)) Bool
   (and (not (arg_offends p v)) (=> (is_dyn_ty (cty.Value.ty v)) (function.Parameter.AllowDynamicType p))))
 ; what a function's Type callback may rely on for argument j: the checks above plus the deep unmarking
-; that returnTypeForValues applies to arguments of parameters without AllowMarked (read from the code of
-; returnTypeForValues; its contract proves the type / null part only)
+; that returnTypeForValues applies to arguments of parameters without AllowMarked (an obligation of
+; returnTypeForValues at its call of the Type callback: C10)
 (define-fun type_arg_ok ((p function.Parameter) (v cty.Value)) Bool
   (and (arg_ok p v) (=> (not (function.Parameter.AllowMarked p)) (not (deep_marked v)))))
 (define-fun args_checked ((sp function.Spec) (args Slice) (n Int)) Bool
@@ -501,6 +501,18 @@
 (define-fun bf.zerov () math/big.Float (mk.math/big.Float 0 0 0 0 false nil.Slice 0))   ; new(big.Float), &big.Float{}
 (assert (and (= (bf.val bf.zerov) 0.0) (= (bf.inf bf.zerov) 0) (not (bf.negzero bf.zerov))))
 (assert (forall ((x math/big.Float)) (! (=> (= (bf.acc64 x) 0) (and (= (bf.inf x) 0) (= (bf.val x) (to_real (bf.int64 x))))) :pattern ((bf.acc64 x)))))
+; conversely a whole number within int64 is reported exactly
+(assert (forall ((x math/big.Float)) (! (=> (and (= (bf.inf x) 0) (is_int (bf.val x)) (<= (- 9223372036854775808.0) (bf.val x)) (<= (bf.val x) 9223372036854775807.0))
+                                            (and (= (bf.acc64 x) 0) (= (bf.int64 x) (to_int (bf.val x))))) :pattern ((bf.acc64 x)))))
+; Uint64(): as math/big implements it (go1.23 .. go1.26: float.go tests `x.MinPrec() <= 64` where Int64 tests
+; `x.MinPrec() <= uint(x.exp)`), Exact is also reported for a FRACTIONAL value below 2^64 whose mantissa fits
+; 64 bits (Uint64(1.5) = 1, Exact). So Exact only says: finite, 0 <= x < 2^64, result = trunc(x); a whole
+; number in range is always reported exactly. (The documented contract - Exact iff x is an integer in range -
+; was assumed here first; a seeding sub-agent noticed the discrepancy: DESIGN.md 9.3, F27.)
+(assert (forall ((x math/big.Float)) (! (=> (= (bf.accu64 x) 0) (and (= (bf.inf x) 0) (<= 0.0 (bf.val x)) (< (bf.val x) 18446744073709551616.0) (= (bf.uint64 x) (to_int (bf.val x))))) :pattern ((bf.accu64 x)))))
+(assert (forall ((x math/big.Float)) (! (=> (and (= (bf.inf x) 0) (is_int (bf.val x)) (<= 0.0 (bf.val x)) (< (bf.val x) 18446744073709551616.0))
+                                            (and (= (bf.accu64 x) 0) (= (bf.uint64 x) (to_int (bf.val x))))) :pattern ((bf.accu64 x)))))
+(assert (forall ((x math/big.Float)) (! (and (<= 0 (bf.uint64 x)) (<= (bf.uint64 x) 18446744073709551615)) :pattern ((bf.uint64 x)))))
 (define-fun x_lt ((ai Int) (av Real) (bi Int) (bv Real)) Bool (or (< ai bi) (and (= ai 0) (= bi 0) (< av bv))))
 (define-fun x_le ((ai Int) (av Real) (bi Int) (bv Real)) Bool (or (< ai bi) (and (= ai bi) (or (not (= ai 0)) (<= av bv)))))
 (define-fun bf_lt ((x math/big.Float) (y math/big.Float)) Bool (x_lt (bf.inf x) (bf.val x) (bf.inf y) (bf.val y)))
